@@ -53,6 +53,19 @@ def make_db(root, iterative, cls=RuleDB):
 
 
 def rand_events(rnd):
+    if rnd.random() < 0.25:
+        # dense one-way unary rules on few labels (strongly connected components that are not simple cycles), one rule
+        # leading into them and one out, queried only at the end
+        n = rnd.randint(3, 5)
+        evs = []
+        pairs = [(a, b) for a in range(1, n) for b in range(1, n) if a != b]
+        rnd.shuffle(pairs)
+        for a, b in pairs[: rnd.randint(min(3, len(pairs)), min(7, len(pairs)))]:
+            evs.append((a, (b,), 1))
+        x = rnd.randrange(1, n)
+        evs.insert(rnd.randrange(len(evs) + 1), (0, (x,), 1))
+        evs.insert(rnd.randrange(len(evs) + 1), (rnd.randrange(1, n), (0,), 1))
+        return n, 0, evs
     n = rnd.randint(2, 8)
     evs = []
     for _ in range(rnd.randint(1, 16)):
